@@ -314,7 +314,9 @@ run_case(Ctx& ctx)
         {
           if (S.skip[v])
             continue;
-          if (!vf::close_enough(static_cast<double>(got[v]), S.ref[v], S.band[v]))
+          // the band is relative; a product in the float32 subnormal range (iterates thresholded to min*1e-6 by the filter chain
+          // reach 1e-42) is rounded to a multiple of 2^-149: add that absolute quantum
+          if (!vf::close_enough(static_cast<double>(got[v]), S.ref[v], S.band[v] + 2. * std::numeric_limits<float>::denorm_min()))
             {
               const char* key = rc.map_model == 0   ? "osmaposl:update-differs-from-EM-formula"
                                 : rc.map_model == 1 ? "osmaposl:update-differs-from-OSL-formula:additive"
